@@ -702,11 +702,18 @@ def overload_script(rng) -> str:
         nparams = rng.choice([1, 1, 2, 3])
         params = [f"{rng.choice('abcdpqxyz')}{i}" for i in range(nparams)]
         lines.append(f"def {name}({', '.join(params)}):")
-        if rng.random() < 0.5:
+        style = rng.random()
+        if style < 0.4:
             lines.append(f"    mon.write({params[0]})")
             lines.append(f"    return {params[-1]}")
-        else:
+        elif style < 0.75:
             lines.append(f"    return {params[0]}")
+        else:
+            # returns of different kinds in different branches (the merged return type must not depend on set order)
+            kinds = rng.sample(["[1, 2, 3]", "[0.5, 1.5]", "True", '["a"]', "[True]", "2.5", '"s"', "7"], 2)
+            lines.append(f"    if {params[0]}:")
+            lines.append(f"        return {kinds[0]}")
+            lines.append(f"    return {kinds[1]}")
         helpers.append((name, nparams))
     calls = []
     for name, nparams in helpers:
@@ -910,7 +917,7 @@ class E9Hostile(Engine):
     )
 
     def generate(self, rng, tier: str, avoid) -> dict:
-        from dst.gen.hostile import growth_chain, hostile_texts, mutate_text, noise, padded_statement, rejection_texts, runtime_arg_text, wild_script
+        from dst.gen.hostile import growth_chain, helper_chain, hostile_texts, mutate_text, noise, padded_statement, rejection_texts, runtime_arg_text, wild_script
         from dst.gen.programs import GenOptions, ProgGen
 
         canary = "/verif/.work/canary/HIT"
@@ -926,6 +933,8 @@ class E9Hostile(Engine):
         texts += [wild_script(rng) for _ in range(3)]
         texts.append(padded_statement(rng))
         texts += [runtime_arg_text(rng) for _ in range(2)]
+        if rng.random() < 0.5:
+            texts.append(helper_chain(rng))
         skip = set(avoid)
         if "hostile_bigint" in skip:
             texts = [t for t in texts if not re.search(r"\*\*\s*\d+\s*\*\*|<<\s*10\s*\*\*|\*\*\s*7777|\* 10\*\*10|10\*\*8", t)] or ["x = 1\n"]
